@@ -20,6 +20,7 @@ import (
 
 	"github.com/prometheus/common/model"
 
+	"go.opentelemetry.io/otel/attribute"
 	"go.opentelemetry.io/otel/sdk/verifh/vh"
 )
 
@@ -54,6 +55,7 @@ type Op struct {
 	Inst json.RawMessage `json:"inst,omitempty"` // Create: instrument record; Rec: instrument id
 	AS   int             `json:"as,omitempty"`
 	V    fnum            `json:"v,omitempty"`
+	SP   bool            `json:"sp,omitempty"` // Rec inside a sampled span
 
 	inst Inst
 	id   int
@@ -85,11 +87,30 @@ type Scenario struct {
 	Res      []Attr
 	ASes     [][]Attr
 	Scopes   []ScopeRec
+	NoMark   bool // measurements do not carry the vinst marker
 	Ops      []Op
 	MaxScale int
 }
 
-var boundsText = []string{fmtF(histBounds[0]), fmtF(histBounds[1])}
+var (
+	boundsText = []string{fmtF(histBounds[0]), fmtF(histBounds[1])}
+	qbounds    = []int64{int64(histBounds[0] * 8), int64(histBounds[1] * 8)}
+)
+
+// filteredKeys: the keys of the scenario that the view's attribute filter removes.
+func filteredKeys(ases [][]Attr) []attribute.Key {
+	seen := map[string]bool{}
+	out := []attribute.Key{}
+	for _, as := range ases {
+		for _, a := range as {
+			if k := render(a.K); a.F && !seen[k] {
+				seen[k] = true
+				out = append(out, attribute.Key(k))
+			}
+		}
+	}
+	return out
+}
 
 // runScenario executes a scenario on a real exporter + provider and writes the trace lines.
 func runScenario(sc *Scenario, tw *vh.TraceWriter, res *vh.Result) {
@@ -114,9 +135,16 @@ func runScenario(sc *Scenario, tw *vh.TraceWriter, res *vh.Result) {
 			if sc.Scopes == nil {
 				sc.Scopes = []ScopeRec{}
 			}
+			for i := range sc.Scopes {
+				if sc.Scopes[i].Attrs == nil {
+					sc.Scopes[i].Attrs = []Attr{}
+				}
+			}
 			wd.scopeRecs = sc.Scopes
+			wd.filtered = filteredKeys(sc.ASes)
+			wd.mark = !sc.NoMark
 			tw.Emit(map[string]any{"ev": "New", "sc": sc.ID, "opts": op.Opts, "res": sc.Res, "ases": sc.ASes, "bounds": boundsText,
-				"scopes": sc.Scopes})
+				"qbounds": qbounds, "scopes": sc.Scopes, "mark": wd.mark})
 		case "Create":
 			if err := wd.create(op.inst); err != nil {
 				// the property quantifies over valid instruments: an SDK rejection is a generator bug
@@ -125,7 +153,7 @@ func runScenario(sc *Scenario, tw *vh.TraceWriter, res *vh.Result) {
 			}
 			created = append(created, op.inst)
 		case "Rec":
-			wd.record(op.id, op.AS, sc.ASes[op.AS-1], float64(op.V))
+			wd.recordIn(op.id, op.AS, sc.ASes[op.AS-1], float64(op.V), op.SP)
 			res.Evaluations++
 		case "Scrape":
 			streams, err := wd.sdkView()
@@ -163,6 +191,7 @@ func countObs(res *vh.Result, streams []SStream, o Obs) {
 			if s.Native {
 				res.Count("native-histogram-series", 1)
 			}
+			res.Count("exposed-exemplars", int64(len(s.Exs)))
 			for _, l := range s.Labels {
 				if bytes.ContainsRune([]byte(l[1]), ';') {
 					res.Count("merged-label-values", 1)
@@ -174,6 +203,9 @@ func countObs(res *vh.Result, streams []SStream, o Obs) {
 	npts := 0
 	for _, st := range streams {
 		npts += len(st.Points)
+		for _, p := range st.Points {
+			res.Count("sdk-exemplars", int64(len(p.Exs)))
+		}
 		res.Count("sdk-stream-"+st.Data, 1)
 	}
 	res.Count("sdk-points", int64(npts))
@@ -191,6 +223,7 @@ type consts struct {
 	Res    []Attr     `json:"res"`
 	ASes   [][]Attr   `json:"ases"`
 	Scopes []ScopeRec `json:"scopes"`
+	NoMark bool       `json:"nomark"`
 }
 
 func replay(args []string) {
@@ -234,7 +267,7 @@ func replay(args []string) {
 		for i := range ops {
 			vh.Must(ops[i].decode())
 		}
-		sc := &Scenario{ID: fmt.Sprintf("%s%d", *tag, n), Res: c.Res, ASes: c.ASes, Scopes: c.Scopes, Ops: ops, MaxScale: *expoMaxScale}
+		sc := &Scenario{ID: fmt.Sprintf("%s%d", *tag, n), Res: c.Res, ASes: c.ASes, Scopes: c.Scopes, NoMark: c.NoMark, Ops: ops, MaxScale: *expoMaxScale}
 		runScenario(sc, tw, res)
 		if res.Executed <= 2 {
 			res.Sample(map[string]any{"scenario": sc.ID, "ops": ops})
